@@ -180,6 +180,13 @@ func checkC11(c *Case, s *Stats) error {
 		s.class("concurrent_builds_phase")
 	}
 
+	// independent readers on separate instances at the same time
+	if len(c.Keys)%5 == 0 {
+		if err := independentReaders(len(c.Keys), s); err != nil {
+			return err
+		}
+	}
+
 	// independent loads on separate instances at the same time
 	if len(c.Keys)%2 == 0 && c.Enc != "Dummy" {
 		if err := concurrentLoads(c, fresh, m, s); err != nil {
@@ -840,5 +847,162 @@ func concurrentFilterSizes(round int, s *Stats) error {
 	s.doneHash(uint64(round)|1<<42, true)
 	s.calls(len(sets))
 	s.class("concurrent_filter_mode_builds_same_size_as_alone")
+	return nil
+}
+
+// ---------------------------------------------------------------------------
+// Independent readers (round f, C14-f): lookups running at the same time on
+// SEPARATE tries, one goroutine per trie. Every answer is a function of that
+// trie and the query; whatever other tries are being read in the process must
+// not matter (a process-wide scratch object handed out twice does). The oracle
+// is each trie's own model; the typed getters are compared with Get.
+
+func independentReaderCases(round int) []*Case {
+	modes := []OptSpec{{0, 0, 0, 2}, {0, 0, 2, 0}, {0, 2, 0, 0}, {0, 0, 0, 0}, {1, 0, 0, 2}, {1, 0, 2, 0}, {0, 2, 2, 0}, {1, 0, 0, 0}}
+	encs := []string{"I32", "I8", "I64", "I16"}
+	var out []*Case
+	for g := 0; g < 8; g++ {
+		r := sm64{uint64(round*977 + g*13 + 5)}
+		n := 200 + r.intn(600)
+		set := map[string]struct{}{}
+		for len(set) < n {
+			// 2 head bytes, a shared run, then a 3-byte tail: leaves store non-empty tails
+			p := []byte{byte(r.next()), byte(r.next() & 3)}
+			run := strings.Repeat(string([]byte{byte('k' + g)}), 1+r.intn(4))
+			for j := 0; j < 2; j++ {
+				set[string(p)+run+string([]byte{byte(r.next()), byte(r.next()), byte(j * 77)})] = struct{}{}
+			}
+		}
+		keys := sortedSet(set)
+		enc := encs[(g+round)%4]
+		w := map[string]int{"I8": 1, "I16": 2, "I32": 4, "I64": 8}[enc]
+		c := &Case{Gen: "independent-readers", Keys: hexes(keys), Enc: enc, HasVals: true, Opt: modes[(g+round)%8]}
+		if g%2 == 1 {
+			c.Load = "reload"
+		}
+		for i := range keys {
+			v := uint64(i/(1+g%3))*0x9e3779b97f4a7c15 + uint64(g) // runs of equal neighbours for g%3 > 0
+			c.Vals = append(c.Vals, Hex(leBytes(v, w)))
+		}
+		out = append(out, c)
+	}
+	return out
+}
+
+func typedGet(st *trie.SlimTrie, enc, x string) (int64, bool) {
+	switch enc {
+	case "I8":
+		a, f := st.GetI8(x)
+		return int64(a), f
+	case "I16":
+		a, f := st.GetI16(x)
+		return int64(a), f
+	case "I32":
+		a, f := st.GetI32(x)
+		return int64(a), f
+	}
+	return st.GetI64(x)
+}
+
+func intOf(v interface{}) int64 {
+	switch a := v.(type) {
+	case int8:
+		return int64(a)
+	case int16:
+		return int64(a)
+	case int32:
+		return int64(a)
+	case int64:
+		return a
+	}
+	return 0
+}
+
+// readOwnTrie checks one trie against its model on every API the lookup
+// properties speak of (C01, C02, C09, C10, C14).
+func readOwnTrie(st *trie.SlimTrie, c *Case, m *Model) error {
+	for j, k := range m.AllKeys {
+		ri := m.Cover[j]
+		if rv, rf := st.RangeGet(k); !rf || !valEq(rv, m.Want[ri]) {
+			return viol("range-wrong", "RangeGet(%s) = (%v,%v), want (%v,true)", q(k), rv, rf, m.Want[ri])
+		}
+		i := m.find(k)
+		for _, x := range []string{k, k + "\x00", k[:len(k)-1]} {
+			v, f := st.Get(x)
+			id := st.GetID(x)
+			tv, tf := typedGet(st, c.Enc, x)
+			if f != (id >= 0) || f != tf {
+				return viol("inconsistent", "Get(%s) found=%v, GetID=%d, Get%s found=%v", q(x), f, id, c.Enc, tf)
+			}
+			if f && intOf(v) != tv || !f && tv != 0 {
+				return viol("typed-getter", "Get%s(%s) = %d but Get = %v (found=%v)", c.Enc, q(x), tv, v, f)
+			}
+			if f {
+				if rv, rf := st.RangeGet(x); !rf || !valEq(rv, v) {
+					return viol("inconsistent", "Get(%s) = %v but RangeGet = (%v,%v)", q(x), v, rv, rf)
+				}
+			}
+		}
+		if i < 0 {
+			continue
+		}
+		if v, f := st.Get(k); !f || !valEq(v, m.Want[i]) {
+			return viol("wrong-value", "Get(%s) = (%v,%v), want (%v,true)", q(k), v, f, m.Want[i])
+		}
+		l, e, r := st.Search(k)
+		if !valEq(l, m.want(i-1)) || !valEq(e, m.Want[i]) || !valEq(r, m.want(m.higher(k))) {
+			return viol("search", "Search(%s) = (%v,%v,%v), want (%v,%v,%v)", q(k), l, e, r, m.want(i-1), m.Want[i], m.want(m.higher(k)))
+		}
+	}
+	return nil
+}
+
+func independentReaders(round int, s *Stats) error {
+	cases := independentReaderCases(round)
+	tries := make([]*trie.SlimTrie, len(cases))
+	models := make([]*Model, len(cases))
+	for i, c := range cases {
+		_, st, err := c.load()
+		if err != nil {
+			return err
+		}
+		tries[i], models[i] = st, newModel(c)
+	}
+	// even rounds: the concurrent phase is the first use of these instances; odd
+	// rounds: every trie has answered all its queries once before
+	if round%2 == 1 {
+		for i, c := range cases {
+			i, c := i, c
+			if err := guard("lookup on an own trie (sequential)", func() error { return readOwnTrie(tries[i], c, models[i]) }); err != nil {
+				return err
+			}
+		}
+	}
+	errs := make([]error, len(cases))
+	var wg sync.WaitGroup
+	start := make(chan struct{})
+	for i := range cases {
+		i := i
+		wg.Add(1)
+		go func() {
+			defer wg.Done()
+			<-start
+			for rep := 0; rep < 3 && errs[i] == nil; rep++ {
+				errs[i] = guard("lookup on a trie that only this goroutine uses, while other goroutines read their own tries", func() error {
+					return readOwnTrie(tries[i], cases[i], models[i])
+				})
+			}
+		}()
+	}
+	close(start)
+	wg.Wait()
+	for _, e := range errs {
+		if e != nil {
+			return e
+		}
+	}
+	s.doneHash(uint64(round)+1<<40, true)
+	s.calls(len(cases) * 3 * 12 * 400)
+	s.class("independent_readers")
 	return nil
 }
